@@ -7,7 +7,9 @@ EXPLANATION = ("In gix-odb's dynamic store (load_index.rs): every ArcSwap store 
                "every whole-value replacement of a slot's content (assignment through the Arc::make_mut place) is dominated by a `generation.store(.., SeqCst)` on the "
                "same slot and dominates the `files.store` that publishes it; every atomic operation in the module uses SeqCst; the slot-mutating helpers take a "
                "`&MutexGuard` witness and consolidate_with_disk_state locks `self.write` before calling them; loading an index into its slot is on the "
-               "not-newer edge of the `generation > index.generation` re-check. Linearizability under all interleavings is not decided.")
+               "not-newer edge of the `generation > index.generation` re-check. Slot assignment in consolidate_with_disk_state: no try_set_index_slot call without the `not contained` edge of a membership test on the slots kept in this pass; "
+               "a slot given a new file is excluded from, or purged out of, the to-be-cleared list; an assignment needs_generation_change = true is control-dependent on that list being non-empty. "
+               "Reader side: markers handed to load_pack / load_one_index are read from the snapshot inside the retry loop. Linearizability under all interleavings is not decided.")
 FILE = "gix-odb/src/store_impls/dynamic/load_index.rs"
 
 
@@ -18,6 +20,7 @@ def recv_field(fl, call):
 
 def run(db, chk):
     marker_freshness_rule(db, chk)
+    slot_assignment_rules(db, chk)
     fns = [f for f in db.by_crate["gix_odb"] if f.file == FILE and f.kind != "promoted"]
     chk.floor("functions in load_index.rs", len(fns), 25)
     n_store = n_repl = n_atomic = 0
@@ -155,3 +158,65 @@ def marker_freshness_rule(db, chk):
                    "the slot-map marker passed here is read from the snapshot before the retry loop (line %s) although the loop can replace the snapshot: after a generation change load_pack rejects every pack of the new snapshot" % [ln for _, ln in stale],
                    c.where(), key="marker-fresh|%s|%s" % (f.name.split("::")[-1], c.name.split("::")[-1]))
     chk.floor("load_pack / load_one_index calls inside retry loops of dynamic::find", n, 2)
+
+
+def slot_assignment_rules(db, chk):
+    """consolidate_with_disk_state assigns new index files to slots by probing round-robin:
+      (S1) a slot kept in this pass (pushed to new_slot_map_indices because its file is still on disk) is never a destination: every
+           try_set_index_slot call lies behind the `not contained` edge of a membership test on new_slot_map_indices;
+      (S2) a slot that was given a new file in this pass is not emptied at the end of it: slot_indices_to_remove is either excluded from the probe
+           (membership test before try_set_index_slot) or purged of the slot (retain/remove) on the success path of try_set_index_slot;
+      (S3) emptying a slot that non-stable handles may still address changes the generation: an assignment `needs_generation_change = true`
+           is control-dependent on slot_indices_to_remove being non-empty."""
+    cw = db.one(r"^gix_odb::store_impls::dynamic::load_index::<impl gix_odb::Store>::consolidate_with_disk_state$")
+    fl = Flow(cw)
+    def named(op, nm):
+        return any(r[0] == "var" and r[2] == nm for r in fl.roots(op)) or any(r[0] == "var" and r[2] == nm for r in fl.roots(op, stop_named=False) if len(r) > 2)
+    sets = cw.calls_to(r"Store>::try_set_index_slot$")
+    chk.floor("consolidate_with_disk_state: try_set_index_slot calls", len(sets), 2)
+    kept, rem = cw.locals_named("new_slot_map_indices"), cw.locals_named("slot_indices_to_remove")
+    chk.floor("consolidate_with_disk_state: new_slot_map_indices / slot_indices_to_remove", min(len(kept), len(rem)), 1)
+    contains = [c for c in cw.calls() if c.is_(r"::contains$") and c.args]
+    def member_edges(vec_name):
+        out = set()
+        for c in contains:
+            if named(c.args[0], vec_name):
+                out |= fl.result_edges(c)["bad"]        # contains(..) == false
+        return out
+    not_kept = member_edges("new_slot_map_indices")
+    for i, c in enumerate(sets):
+        chk.ob("live-slot-never-a-destination", "consolidate_with_disk_state try_set_index_slot #%d" % i, bool(not_kept) and fl.cut_off([c.block], not_kept),
+               "the round-robin probe can hand a slot to a new index although that slot was kept in this very pass (its pack is still on disk): the live pack disappears from the slot map and its objects are no longer found",
+               c.where(), key="live-slot-destination|%d" % i)
+    not_rem = member_edges("slot_indices_to_remove")
+    purges = [c for c in cw.calls() if c.is_(r"::(retain|remove|swap_remove|retain_mut)$") and c.args and named(c.args[0], "slot_indices_to_remove")]
+    for i, c in enumerate(sets):
+        excluded = bool(not_rem) and fl.cut_off([c.block], not_rem)
+        good = fl.result_edges(c)["good"]
+        purged = False
+        if good and purges:
+            r = set()
+            for (_, t) in good:
+                r |= cw.reach_from(t, avoid=[p.block for p in purges])
+            # every way from the success edge to the end of the probe loop passes a purge: approximate by `the final removal loop is not reachable without one`
+            clears = [bi for bi, si, pl, rv, ln, mc in cw.assigns() if rv[0] == "agg" and rv[1] == "adt" and rv[3] == "None" and "Option" in rv[2]]
+            stores = [s.block for s in cw.calls() if s.is_(r"arc_swap::ArcSwapAny::<T, S>::store$")]
+            purged = not any(b in r for b in stores if not cw.dominates(b, c.block))
+        chk.ob("assigned-slot-is-not-cleared", "consolidate_with_disk_state try_set_index_slot #%d" % i, excluded or purged,
+               "a slot whose old pack was deleted can be chosen as destination for a new index and is then emptied by the removal loop of the same pass: the new pack stays invisible (permanently, once the slot list looks unchanged)",
+               c.where(), key="assigned-slot-cleared|%d" % i)
+    # S3
+    flags = cw.locals_named("needs_generation_change")
+    empt = [c for c in cw.calls() if c.is_(r"::is_empty$") and c.args and named(c.args[0], "slot_indices_to_remove")]
+    nonempty = set()
+    for c in empt:
+        nonempty |= fl.result_edges(c)["bad"]
+    lens = []
+    dep = False
+    for bi, si, pl, rv, ln, mc in cw.assigns():
+        if len(pl) == 1 and pl[0] in flags and rv[0] == "use" and rv[1].get("v") == 1:
+            if nonempty and fl.cut_off([bi], nonempty):
+                dep = True
+    chk.ob("slot-removal-changes-generation", "consolidate_with_disk_state", dep,
+           "slots of deleted packs are emptied without a generation change: a handle that still holds the old index asks load_pack for that slot and hits unreachable!(), or - once the slot was refilled - is handed a different pack and returns another object's bytes",
+           "%s:%d" % (cw.file, cw.line), key="slot-removal-generation")
